@@ -13,7 +13,7 @@ import (
 
 // Fixed regression worlds: one per conforming variation named in the property / defect shape of
 // DESIGN.md section 7. Part of both tiers.
-var fixedNames = []string{"two-offset-accepts", "offset-then-letters", "all-accept-forms", "all-reject-forms", "all-defer-forms", "title-from-long-subject", "latin1-subject", "early-fq", "dup-mid", "six-messages-order", "lib-master-motd", "gzip"}
+var fixedNames = []string{"two-offset-accepts", "offset-then-letters", "all-accept-forms", "all-reject-forms", "all-defer-forms", "title-from-long-subject", "latin1-subject", "early-fq", "dup-mid", "six-messages-order", "twenty-mixed-precedence", "sixteen-one-flash", "lib-master-motd", "gzip"}
 
 func fixedWorld(name string) (*b2fx.PeerWorld, error) {
 	w := b2fx.BaseWorld("fixed-"+name, false)
@@ -68,6 +68,24 @@ func fixedWorld(name string) (*b2fx.PeerWorld, error) {
 		add(w.AddLib("ORD5", "//WL2K O/ immediate", body(100, 'e'), "+"))
 		add(w.AddLib("ORD6", "routine mid", body(50, 'f'), "+"))
 		add(w.AddLib("ORD7", "//WL2K Z/ flash small", body(1, 'g'), "+"))
+	case "twenty-mixed-precedence", "sixteen-one-flash":
+		// more pending messages than fit small-slice code paths of sort implementations, mixed
+		// precedence, sizes not monotone in queue order
+		n := 20
+		if name == "sixteen-one-flash" {
+			n = 16
+		}
+		marks := []string{"//WL2K Z/ ", "//WL2K O/ ", "//WL2K P/ ", "", "", ""}
+		for i := 0; i < n; i++ {
+			mark := marks[(i*7+3)%len(marks)]
+			if name == "sixteen-one-flash" {
+				mark = ""
+				if i == 11 {
+					mark = "//WL2K Z/ "
+				}
+			}
+			add(w.AddLib(fmt.Sprintf("ORD%02d", i), mark+fmt.Sprintf("message %d", i), body(5+(i*37)%190, byte('a'+i%20)), "+"))
+		}
 	case "lib-master-motd":
 		w = b2fx.BaseWorld("fixed-"+name, true)
 		w.MOTD = []string{"Welcome", "second line"}
